@@ -26,8 +26,8 @@ DIE_Q = "raw entry [offset value, abbrev [code value, offset value]]"
 # per location attribute: DIE offset, attribute position, then per element [address ranges, length, elem (offset,label,value*), relem offsets, pos]
 LOC_Q = ("raw entry (|D| D attribute ?(label == (DW_AT_location, DW_AT_frame_base, DW_AT_data_member_location)) (|A| A value ?(type == T_LOCLIST_ELEM) (|E| [D offset value, A pos, "
          "[E address (|S| [S low value, S high value] || [])], E length, "
-         "[E elem [offset value, label value, [value (|V| (V ?(type == T_CONST) [V value, V] || "
-         "V ?(type == T_DIE) [V offset value] || V ?(type == T_SEQ) V || V ?(type == T_LOCLIST_ELEM) [V elem label value]))], pos]], "
+         "[E elem [offset value, label value, [value (|V| (V ?(type == T_CONST) [1, V value, V] || "
+         "V ?(type == T_DIE) [2, V offset value] || V ?(type == T_SEQ) [3, V] || V ?(type == T_LOCLIST_ELEM) [4, [V elem label value]]))], pos]], "
          "[E relem [offset value, pos]], E pos])))")
 LOCV = "entry attribute ?(label == (DW_AT_location, DW_AT_frame_base, DW_AT_data_member_location)) value"
 LAWS = [
@@ -60,6 +60,27 @@ def sleb_len(n):
         n >>= 7
         k += 1
     return k
+
+
+def sleb_bytes(n):
+    out = []
+    while True:
+        b = n & 0x7f
+        n >>= 7
+        if (n == 0 and not b & 0x40) or (n == -1 and b & 0x40):
+            out.append(b)
+            return out
+        out.append(b | 0x80)
+
+
+def uleb_of_sleb(n):
+    """libdw reads the offset operand of DW_OP_(GNU_)implicit_pointer with get_uleb128 although DWARF stores it as SLEB128:
+    what comes out for a stored n (the same number when n >= 0), then cast to a signed 64-bit word by dwgrep"""
+    v = 0
+    for i, b in enumerate(sleb_bytes(n)):
+        v |= (b & 0x7f) << (7 * i)
+    v &= M64 - 1
+    return v - M64 if v >= (1 << 63) else v
 
 
 def expected_abbrevs(desc):
@@ -98,7 +119,7 @@ def op_expected(op2, unit_off):
     elif name in ("bit_piece", "regval_type", "GNU_regval_type", "deref_type", "GNU_deref_type", "xderef_type"):
         vals = [["dec", u(ops[0])], ["dec", u(ops[1])]]
     elif name in ("implicit_pointer", "GNU_implicit_pointer"):
-        vals = [["die", ops[0]["die"]], ["dec", ops[1]["s"]]]
+        vals = [["die", ops[0]["die"]], ["dec", uleb_of_sleb(ops[1]["s"])]]
     elif name == "implicit_value":
         vals = [["block", ops[0]["block"]]]
     elif name in ("entry_value", "GNU_entry_value"):
@@ -137,17 +158,72 @@ def observed_op(q):
     off, lab, vals, pos = q[1][0][2], q[1][1][2], q[1][2][1], q[1][3][2]
     out = []
     for v in vals:
-        if v[0] == "q" and len(v[1]) == 2 and v[1][1][0] == "c":          # [value, constant]
-            out.append([v[1][1][1], v[1][0][2]])
-        elif v[0] == "q" and len(v[1]) == 1 and v[1][0][0] == "c":         # [offset of a DIE]
-            out.append(["die", v[1][0][2]])
-        elif v[0] == "q" and v[1] and all(x[0] == "c" and x[1] == "hex" for x in v[1]):
-            out.append(["block", [x[2] for x in v[1]]])
-        elif v[0] == "q":
-            out.append(["expr" if all(x[0] == "c" for x in v[1]) and v[1] else "block", [x[2] for x in v[1]]])
+        tag = v[1][0][2] if v[0] == "q" and v[1] and v[1][0][0] == "c" else None
+        if tag == 1:
+            out.append([v[1][2][1], v[1][1][2]])
+        elif tag == 2:
+            out.append(["die", v[1][1][2]])
+        elif tag == 3:
+            out.append(["block", [x[2] for x in v[1][1][1]]])
+        elif tag == 4:
+            out.append(["expr", [x[2] for x in v[1][1][1]]])
         else:
             out.append(["other", repr(v)])
     return [off, lab, out], pos
+
+
+def check_locations(ctx, fs, desc, path, res_lines, stats, stream="C17-loc"):
+    """every location attribute of a generated forest: per element the address range, length, each operation's offset, opcode
+    and operands (domain, sign), relem, positions — library (the LOC_Q records) vs the description.  Returns True if all agree."""
+    good = True
+    opcodes = stats.setdefault("opcodes", {})
+    want_loc = []
+    for u in desc["units"]:
+        for x in walk(u["root"]):
+            for i, a in enumerate(x["attrs"]):
+                v = a["value"]
+                if isinstance(v, dict) and "ops" in v and a["form"] in (forest.DW_FORM["exprloc"], forest.DW_FORM["block1"]) \
+                        and (forest.DW_AT.name(a["name"]) in ("location", "frame_base", "data_member_location")):
+                    want_loc.append((x["offset"], i, [(0, M64 - 1, ops2_of(v))], u["offset"]))
+                elif isinstance(v, dict) and "loclist" in v:
+                    stats["lists"] = stats.get("lists", 0) + 1
+                    want_loc.append((x["offset"], i, [(e["start"], e["end"], ops2_of(e)) for e in v["entries"]], u["offset"]))
+    got_loc = {}
+    for r in res_lines:
+        q = dwcorr.parse_vals(r[r.index("["):])[0][1]
+        key = (q[0][2], q[1][2])
+        rng_ = [tuple(x[2] for x in s[1]) for s in q[2][1]]
+        ops = [observed_op(o) for o in q[4][1]]
+        rel = [(o[1][0][2], o[1][1][2]) for o in q[5][1]]
+        got_loc.setdefault(key, []).append({"range": rng_, "length": q[3][2], "ops": [o for o, _ in ops],
+                                            "pos": [p for _, p in ops], "relem": rel, "epos": q[6][2]})
+    for (off, i, elems, uoff) in want_loc:
+        g = got_loc.get((off, i), [])
+        w = []
+        for ei, (lo, hi, ops2) in enumerate(elems):
+            wops = [op_expected(o, uoff) for o in ops2]
+            w.append({"range": [(lo, hi)] if hi > lo else [], "length": len(ops2), "ops": wops, "pos": list(range(len(ops2))),
+                      # relem: the producer hands out the original index as the position
+                      "relem": [(o[0], len(wops) - 1 - j) for j, o in enumerate(reversed(wops))], "epos": ei})
+            stats["elems"] = stats.get("elems", 0) + 1
+            stats["ops"] = stats.get("ops", 0) + len(ops2)
+            for o in ops2:
+                opcodes[O.name(o["op"]) or str(o["op"])] = opcodes.get(O.name(o["op"]) or str(o["op"]), 0) + 1
+        if g != w:
+            good = False
+            ei = next((j for j, (a, b) in enumerate(zip(g, w)) if a != b), min(len(g), len(w)))
+            ga = g[ei] if ei < len(g) else None
+            wa = w[ei] if ei < len(w) else None
+            field = next((f for f in ("range", "length", "ops", "pos", "relem", "epos") if ga and wa and ga[f] != wa[f]), "count")
+            gv, wv = (ga or {}).get(field, len(g)), (wa or {}).get(field, len(w))
+            if field == "ops" and len(gv) == len(wv):
+                j = next(j for j in range(len(gv)) if gv[j] != wv[j])
+                field, gv, wv = "operation #%d (%s)" % (j, O.name(wv[j][1])), gv[j], wv[j]
+            ctx.violation("location attribute #%d of DIE %#x, element %d (%d stored): %s differs — library [offset, opcode, operands] %r, file %r"
+                          % (i, off, ei, len(w), field, gv, wv),
+                          {"stream": stream, "input": fs.inp(desc, path, "raw entry (offset == %d) attribute (pos == %d) value" % (off, i)),
+                           "got": repr(ga), "expected": repr(wa), "theorem": "ZwVerif.C17.operand_classes"})
+    return good
 
 
 def run(ctx):
@@ -157,15 +233,14 @@ def run(ctx):
     fs = dwcorr.Forests(ctx)
     rng = ctx.rng
     n = 40 if ctx.tier == "quick" else 1200
-    nelem = nops = nabbr = 0
+    nabbr = 0
     ok = 0
-    opcodes = {}
-    lists = 0
+    stats = {}
     try:
         for k in range(n):
             opts = {"max_units": 4}
             if "rich_ops" in forest._DEFAULTS:
-                opts.update({"rich_ops": 0.7, "loclists": 0.4 if k % 2 else 0.0})
+                opts.update({"rich_ops": 0.7, "loclists": 0.4 if k % 2 else 0.0, "implicit_consts": 0.6, "dup_attrs": 0.1 if k % 4 == 1 else 0.0})
             desc, path = fs.make(rng, **opts)
             qs = [ABBREV_Q, UNIT_Q, DIE_Q, LOC_Q] + [q for _, q in LAWS]
             recs, crashes = fs.query(path, qs)
@@ -209,52 +284,8 @@ def run(ctx):
                               {"stream": "C17-abbrev", "input": fs.inp(desc, path, DIE_Q), "got": gd[i] if i < len(gd) else None,
                                "expected": wd[i] if i < len(wd) else None, "theorem": "ZwVerif.C17.findAbbrev_unique"})
             # location attributes
-            want_loc = []
-            for u in desc["units"]:
-                for x in walk(u["root"]):
-                    for i, a in enumerate(x["attrs"]):
-                        v = a["value"]
-                        if isinstance(v, dict) and "ops" in v and a["form"] in (forest.DW_FORM["exprloc"], forest.DW_FORM["block1"]) \
-                                and (forest.DW_AT.name(a["name"]) in ("location", "frame_base", "data_member_location", "return_addr",
-                                                                      "segment", "static_link", "use_location", "vtable_elem_location",
-                                                                      "data_location")):
-                            want_loc.append((x["offset"], i, [(0, M64 - 1, ops2_of(v))], u["offset"]))
-                        elif isinstance(v, dict) and "loclist" in v:
-                            lists += 1
-                            want_loc.append((x["offset"], i, [(e["start"], e["end"], ops2_of(e)) for e in v["entries"]], u["offset"]))
-            got_loc = {}
-            for r in recs[3].res:
-                q = dwcorr.parse_vals(r[r.index("["):])[0][1]
-                key = (q[0][2], q[1][2])
-                rng_ = [tuple(x[2] for x in s[1]) for s in q[2][1]]
-                ops = [observed_op(o) for o in q[4][1]]
-                rel = [(o[1][0][2], o[1][1][2]) for o in q[5][1]]
-                got_loc.setdefault(key, []).append({"range": rng_, "length": q[3][2], "ops": [o for o, _ in ops],
-                                                    "pos": [p for _, p in ops], "relem": rel, "epos": q[6][2]})
-            for (off, i, elems, uoff) in want_loc:
-                g = got_loc.get((off, i), [])
-                w = []
-                for ei, (lo, hi, ops2) in enumerate(elems):
-                    wops = [op_expected(o, uoff) for o in ops2]
-                    w.append({"range": [(lo, hi)] if hi > lo else [], "length": len(ops2), "ops": wops, "pos": list(range(len(ops2))),
-                              "relem": [(o["offset"], len(ops2) - 1 - j) for j, o in enumerate(reversed(ops2))], "epos": ei})
-                    nelem += 1
-                    nops += len(ops2)
-                    for o in ops2:
-                        opcodes[O.name(o["op"]) or str(o["op"])] = opcodes.get(O.name(o["op"]) or str(o["op"]), 0) + 1
-                # relem positions: the producer hands out the original index
-                for e in w:
-                    e["relem"] = [(o[0], len(e["ops"]) - 1 - j) for j, o in enumerate(reversed(e["ops"]))]
-                if g != w:
-                    good = False
-                    ei = next((j for j, (a, b) in enumerate(zip(g, w)) if a != b), min(len(g), len(w)))
-                    ga = g[ei] if ei < len(g) else None
-                    wa = w[ei] if ei < len(w) else None
-                    field = next((f for f in ("range", "length", "ops", "pos", "relem", "epos") if ga and wa and ga[f] != wa[f]), "count")
-                    ctx.violation("location attribute #%d of DIE %#x, element %d (%d stored): `%s` differs — library %r, file %r"
-                                  % (i, off, ei, len(w), field, (ga or {}).get(field, len(g)), (wa or {}).get(field, len(w))),
-                                  {"stream": "C17-loc", "input": fs.inp(desc, path, "raw entry (offset == %d) attribute (pos == %d) value" % (off, i)),
-                                   "got": repr(ga), "expected": repr(wa), "theorem": "ZwVerif.C17.operand_classes"})
+            if not check_locations(ctx, fs, desc, path, recs[3].res, stats):
+                good = False
             # law queries
             for (name, q), r in zip(LAWS, recs[4:]):
                 if r.err and r.err.startswith("compile"):
@@ -287,6 +318,7 @@ def run(ctx):
                 s_ok += 1
     finally:
         fs.cleanup()
+    nops, nelem, lists, opcodes = stats.get("ops", 0), stats.get("elems", 0), stats.get("lists", 0), stats.get("opcodes", {})
     ctx.cov["evaluations"] = nops + nabbr
     ctx.cov["distinct_nontrivial"] = len(opcodes)
     ctx.cov["forests"] = n
